@@ -8,7 +8,7 @@ export CARGO_NET_OFFLINE=true LANG=C
 git checkout -q -- . ; rm -f $crate/tests/__seed_*.rs
 names=()
 made=0; [ -d $crate/tests ] || { mkdir $crate/tests; made=1; }
-for f in demo/*.rs; do n=__seed_$(basename $f .rs); cp $f $crate/tests/$n.rs; names+=("--test" "$n"); done
+for f in ${3:-demo/*.rs}; do n=__seed_$(basename $f .rs); cp $f $crate/tests/$n.rs; names+=("--test" "$n"); done
 git apply patch.diff || { echo "CONFIRM $wt: patch does not apply"; exit 2; }
 cargo test --offline -q -p $crate --lib >/tmp/confirm_$$.lib 2>&1; lib=$?
 cargo test --offline -q -p $crate "${names[@]}" >/tmp/confirm_$$.with 2>&1; with=$?
